@@ -79,8 +79,13 @@ func scenarios(indexed bool) []*eng.Scenario {
 			}},
 		{Name: "S11-large-batch-vs-count" + suffix, Setup: with(ins("a", doc(u1, "x", int64(1)))),
 			Threads: [][]m.Op{
-				{ins("a", manyDocs(1100)...)},
+				{ins("a", manyDocs(520)...)},
 				{{K: "count", Q: all}, {K: "count", Q: qOn("a", m.Leaf("gte", "x", int64(0)))}},
+			}},
+		{Name: "S12-large-bulk-writes-vs-count" + suffix, Setup: with(ins("a", manyDocs(520)...)),
+			Threads: [][]m.Op{
+				{{K: "delete", Q: qOn("a", m.Leaf("gte", "x", int64(3)))}, {K: "update", Q: qOn("a", m.Leaf("lte", "x", int64(4))), Set: setMap("z", int64(1))}},
+				{{K: "count", Q: all}, {K: "count", Q: qOn("a", m.Exists("z"))}},
 			}},
 		{Name: "S8-drop-index-vs-indexed-update" + suffix, Setup: with(ins("a", doc(u1, "x", int64(1)), doc(u2, "x", int64(2)))),
 			Threads: [][]m.Op{
@@ -94,7 +99,7 @@ func scenarios(indexed bool) []*eng.Scenario {
 // RacePass is run by the -race binary (bin/verif-race racepass).
 func RacePass(rounds int) int {
 	scs := append(scenarios(false), scenarios(true)...)
-	scs = append(scs, eng.WideScenario())
+	scs = append(scs, eng.WideScenario(), eng.AllPathsScenario())
 	return eng.RacePass(scs, []string{drv.BBolt, drv.Badger}, rounds)
 }
 
@@ -149,7 +154,7 @@ func manyDocs(n int) []m.Doc {
 func init() {
 	register("C07", "model_checking", func(run *ev.Run, tier string) string {
 		tags := own("nonlinearizable", "deadlock", "rawkeys", "count", "indexquery", "id", "panic", "leak", "final", "harness")
-		nScen := 11
+		nScen := 12
 		for _, indexed := range []bool{false, true} {
 			for i, sc := range scenarios(indexed) {
 				if i >= nScen {
@@ -160,7 +165,7 @@ func init() {
 					if tier == "thorough" {
 						eng.SchedExplore(&eng.SchedConfig{Scenario: sc, Backend: b, Mode: eng.ModeTxPoints, Bound: 4, Budget: 5 * time.Minute, Own: tags}, run)
 						eng.SchedExplore(&eng.SchedConfig{Scenario: sc, Backend: b, Mode: eng.ModeEveryCall, Bound: 3, Budget: 5 * time.Minute, Own: tags}, run)
-					} else if !strings.HasPrefix(sc.Name, "S11") { // thousands of store calls per schedule: op+commit mode only in the quick tier
+					} else if !strings.HasPrefix(sc.Name, "S11") && !strings.HasPrefix(sc.Name, "S12") { // thousands of store calls per schedule: op+commit mode only in the quick tier
 						eng.SchedExplore(&eng.SchedConfig{Scenario: sc, Backend: b, Mode: eng.ModeEveryCall, Bound: 1, Budget: 60 * time.Second, Own: tags}, run)
 					}
 				}
